@@ -1,6 +1,6 @@
 SPECIFICATION Spec
 CONSTANTS K = 2
-          KO = 0
+          KO = 1
           W = 1
           Ext = FALSE
           ValSet = "plain"
